@@ -226,7 +226,11 @@ def backOp (op : String) (f : Format) (items : Option (List Spec.Efmt.SItem)) (e
     | .ok t => formatParse oracles f t
     | .err => .err
     | .panic => .panic
-  let inDomain := decide (e.ts = TS.UTC) && (match items with | some its => Spec.Efmt.backDomain its | none => false)
+  -- the quantifier's offsets are whole minutes in -23:59..+23:59 (a shrunk replay once left that set)
+  let offInDomain : Bool := match off with
+    | some o => decide (sval o % 60000000000 = 0 ∧ -86340000000000 ≤ sval o ∧ sval o ≤ 86340000000000)
+    | none => true
+  let inDomain := decide (e.ts = TS.UTC) && offInDomain && (match items with | some its => Spec.Efmt.backDomain its | none => false)
   let sp :=
     if inDomain then
       (match impl with
